@@ -402,13 +402,15 @@ SPECS["C03"] = ("""property C03: all parsers are total and memory-safe on arbitr
 SPECS["C01"] = ("""property C01: event JSON parsing is faithful to an independent JSON parser.
    PARTIAL.  Proved: the integer members are read as exactly the numeric value of their digit run
    and a value that does not fit the field (kind > 65535, created_at >= 2^64) is an error, never
-   wrapped; whatever integer is accepted fits; and for the library's own rendering of ANY well-formed
+   wrapped; whatever integer is accepted fits; for the library's own rendering of ANY well-formed
    event the parser consumes the whole text and produces exactly the encoding of the seven fields
-   (JsonRoundTrip.v).  For the other texts of the grammar (member orders, whitespace, escape spellings,
-   unknown members) "parse t = enc_event (denote t)" is not proved in Coq; it is decided per run by the
-   differential check against python's json module (member orders, whitespace, escape spellings,
-   unknown members, boundaries) and against the parser model (exact).""",
-  CODIMP + "\nFrom Pocket Require Import JsonRoundTrip.", [
+   (JsonRoundTrip.v); and the seven members may come in ANY ORDER (EventAnyOrder.v: all 5040 orders,
+   including content before tags, where the parser remembers the content's start and decodes it once the
+   tags are placed), whatever follows the closing brace.  For the other texts of the grammar (whitespace,
+   escape spellings, unknown members) "parse t = enc_event (denote t)" is not proved in Coq; it is decided
+   per run by the differential check against python's json module (member orders, whitespace, escape
+   spellings, unknown members, boundaries) and against the parser model (exact).""",
+  CODIMP + "\nFrom Pocket Require Import EscapeRoundTrip JsonRoundTrip EventAnyOrder.", [
   ("C01_created_at_value_partial",
    "forall l, read_u64 l = let '(ds, rest) := span_digits l in\n    match ds with [] => Err EJson | _ => if num_of ds <=? 18446744073709551615 then Ok (num_of ds, rest) else Err EJson end",
    "read_u64_spec", "digit run of any length: its value, or an error when >= 2^64"),
@@ -418,9 +420,37 @@ SPECS["C01"] = ("""property C01: event JSON parsing is faithful to an independen
   ("C01_library_text_parsed_faithfully",
    "forall e txt out, wf_event_json e -> event_size e <= len out -> event_as_json e = Ok txt ->\n    event_from_json txt out = Ok (len txt, enc_event e, enc_event e ++ drop (event_size e) out)",
    "event_json_roundtrip", "the parser model on the library's own rendering of ANY well-formed event: consumed = the whole text, the binary value = the encoding of exactly the seven field values (whose accessors return them: C19). Other member orders, whitespace, escape spellings and unknown members are decided per run"),
+  ("C01_any_member_order",
+   "forall e tj cj ms tail out, wf_event_json e -> tags_as_json (e_tags e) = Ok tj -> json_escape (e_content e) = Ok cj ->\n    NoDup ms -> (forall k, In k ms) -> event_size e <= len out ->\n    event_from_json (event_text e tj cj ms tail) out\n    = Ok (len (event_text e tj cj ms tail) - len tail, enc_event e, enc_event e ++ drop (event_size e) out)",
+   "event_any_order", "EVERY well-formed event, EVERY order of its seven members (a duplicate-free list containing all seven keys), the library's spelling of each member, anything after the closing brace: the parse consumes exactly the object and yields the canonical encoding of the seven field values, the rest of the caller's buffer untouched"),
+  ("C01_as_json_is_one_of_these_texts",
+   "forall e tj cj, tags_as_json (e_tags e) = Ok tj -> json_escape (e_content e) = Ok cj ->\n    event_as_json e = Ok (event_text e tj cj [KId; KPk; KKind; KCreated; KTags; KContent; KSig] [])",
+   "as_json_is_event_text", ""),
   ("C01_int_no_wrap_u64", "forall l v r, read_u64 l = Ok (v, r) -> v < 18446744073709551616", "read_u64_fits", ""),
   ("C01_int_no_wrap_kind", "forall l v r, read_kind l = Ok (v, r) -> v < 65536", "read_kind_fits", ""),
-  ], """Example C01_example :
+  ], """(* non-vacuity of the any-order theorem: content first, then sig, tags, id, kind, pubkey, created_at; trailing bytes *)
+Example C01_order_example :
+  let e := mkE (repeat 1 32) (repeat 2 32) (repeat 3 64) 1 1700000000 [[[101]; [91; 34; 93]]; []; [[]]] [104; 10; 34; 92; 195; 169] in
+  let ms := [KContent; KSig; KTags; KId; KKind; KPk; KCreated] in
+  wf_event_json e /\\ NoDup ms /\\ (forall k, In k ms) /\\
+  exists tj cj, tags_as_json (e_tags e) = Ok tj /\\ json_escape (e_content e) = Ok cj /\\
+    event_from_json (event_text e tj cj ms [9; 9]) (repeat 170 (N.to_nat (event_size e) + 3))
+    = Ok (len (event_text e tj cj ms [9; 9]) - 2, enc_event e, enc_event e ++ [170; 170; 170]).
+Proof.
+  cbv zeta. split; [|split; [|split]].
+  - unfold wf_event_json. cbn [e_id e_pk e_sig e_kind e_created e_tags e_content].
+    assert (R : forall b n, b < 256 -> wf_bytes (repeat b n)) by (intros b n Hb; apply Forall_forall; intros x Hx; apply repeat_spec in Hx; subst x; exact Hb).
+    repeat apply conj; try (apply R; lia); try (vm_compute; reflexivity); try lia.
+    + repeat constructor.
+      * exists [101]. split; [repeat constructor; unfold scalar; lia|reflexivity].
+      * exists [91; 34; 93]. split; [repeat constructor; unfold scalar; lia|reflexivity].
+      * exists []. split; [constructor|reflexivity].
+    + exists [104; 10; 34; 92; 233]. split; [repeat constructor; unfold scalar; lia|vm_compute; reflexivity].
+  - repeat constructor; cbn; intuition discriminate.
+  - intros k. destruct k; cbn; auto 8.
+  - eexists _, _. split; [vm_compute; reflexivity|split; [vm_compute; reflexivity|vm_compute; reflexivity]].
+Qed.
+Example C01_example :
   read_u64 [49;56;52;52;54;55;52;52;48;55;51;55;48;57;53;53;49;54;49;53;44] = Ok (18446744073709551615, [44]) /\\
   read_u64 [49;56;52;52;54;55;52;52;48;55;51;55;48;57;53;53;49;54;49;54;44] = Err EJson /\\
   read_kind [54;53;53;51;54] = Err EJson.
